@@ -31,13 +31,15 @@ Inductive rkind :=
 | RHookTask (after : bool) (w : Z)     (* task role with trigger DESTROY+w / after_DESTROY+w *)
 | RHookCall (after : bool) (w : Z)     (* call role with trigger DESTROY+w / after_DESTROY+w *)
 | RPend                                (* call role started at before_CONFIGURE, awaited at a moment that never comes *)
-| RLeave (st : N).                     (* call role started at leave_<environment state st>, awaited at a moment that never comes *)
+| RLeave (st : N)                      (* call role started at leave_<environment state st>, awaited at a moment that never comes *)
+| RNone.                               (* a task role whose task was not launched but claimed (see [finish]) *)
 
 Record role := mkRole {
   r_kind : rkind;
   r_crit : bool;
   r_launch : N;      (* oracle: 0 reports TASK_RUNNING, 1 TASK_FAILED after launch, 2 stays staging *)
-  r_cfgerr : bool    (* oracle: answers CONFIGURE with an error *)
+  r_cfgerr : bool;   (* oracle: answers CONFIGURE with an error *)
+  r_ch : N           (* plain task role: task class + host as one code; 0 = a class no other role loads *)
 }.
 
 Definition is_task_role (r : role) : bool :=
@@ -255,18 +257,21 @@ Record cspec := mkSpec {
                           6 partial deployment failure: a critical role is offered its host but fails a further
                           constraint; every other task role is launched, in each of the three deployment
                           attempts of acquireTasks *)
-  c_roles : list role
+  c_roles : list role;
+  c_refuse : list N;   (* oracle: numbers of the roles for whose task the master refuses KILL calls *)
+  c_reuse : bool       (* the option reuseUnlockedTasks at the time of the creation *)
 }.
 
-Definition launch_task (e : N) (ir : N * role) : task :=
+Definition launch_task (e : N) (rf : list N) (ir : N * role) : task :=
   mkTask (tid_of e (fst ir)) (Some e) (N.eqb (r_launch (snd ir)) 0)
-         (if N.eqb (r_launch (snd ir)) 1 then TS_ERROR else TS_STANDBY) true.
+         (if N.eqb (r_launch (snd ir)) 1 then TS_ERROR else TS_STANDBY) true
+         (if memN (fst ir) rf then 1 else 0) (r_ch (snd ir)).
 
 (* the tasks launched by deployment attempt [a] (0, 1, 2) of a deployment that acquireTasks retries:
    attempt a of role i is task i + a * (number of roles); they never get a parent *)
 Definition att_id (e : N) (n a : N) (ir : N * role) : tid := tid_of e (fst ir + a * n).
 Definition att_task (e : N) (n a : N) (ir : N * role) : task :=
-  mkTask (att_id e n a ir) None (N.eqb (r_launch (snd ir)) 0) TS_STANDBY true.
+  mkTask (att_id e n a ir) None (N.eqb (r_launch (snd ir)) 0) TS_STANDBY true 0 (r_ch (snd ir)).
 
 (* the attempts whose tasks acquireTasks writes to the roster *)
 Definition roster_attempts : list N :=
@@ -285,7 +290,7 @@ Definition create_tail (x : env) (s : st) (cmds : list tid) (launched : list tid
   let '(r', k) := kill_tasks (bound_tids x) (s_roster (td_st t)) in
   (with_roster (td_st t) r', mkOut 1 k cmds (td_calls t) (td_trigs t) (td_left t) launched).
 
-Definition finish (e : N) (c : cspec) (s : st) : st * out :=
+Definition finish0 (e : N) (c : cspec) (s : st) : st * out :=
   match assocN e (s_snaps s) with
   | None => (s, out_rc 1)
   | Some snapdets =>
@@ -311,7 +316,7 @@ Definition finish (e : N) (c : cspec) (s : st) : st * out :=
         else
           let x1 := set_bound x0 in
           let launched := map (fun ir => tid_of e (fst ir)) (task_iroles x1) in
-          let r1 := s_roster s0 ++ map (launch_task e) (task_iroles x1) in
+          let r1 := s_roster s0 ++ map (launch_task e (c_refuse c)) (task_iroles x1) in
           if existsb (fun r => is_task_role r && N.eqb (r_launch r) 1) (c_roles c) || N.eqb (c_fail c) 5 then
             let xe := set_estate ES_ERROR (leave_upd ES_STANDBY (leave_upd ES_STANDBY x1)) in
             create_tail xe (mkSt (s_envs s0 ++ [xe]) r1 (s_snaps s0)) [] launched
@@ -328,6 +333,44 @@ Definition finish (e : N) (c : cspec) (s : st) : st * out :=
             else
               (mkSt (s_envs s0 ++ [set_estate ES_CONFIGURED x2]) r2 (s_snaps s0),
                mkOut 0 [] targets [] [] 0 launched)
+  end.
+
+(* ---- reuseUnlockedTasks: acquireTasks satisfies a descriptor with a running task of the roster that is
+   claimable (IsClaimable), of the wanted class, on the wanted host, instead of launching one.  The role of
+   a claimed task never receives the status update the DEPLOY transition waits for (SetTask does not push
+   one), so a creation that claimed anything gives up on its deploy timeout; its failure tail releases and
+   KILLs the claimed tasks with the launched ones.  [claims]: (role number, claimed task), at most one role
+   per class + host code in a workflow. *)
+Definition claims (c : cspec) (r : roster) : list (N * tid) :=
+  flat_map (fun ir => match r_kind (snd ir) with
+                      | RPlain => if N.eqb (r_ch (snd ir)) 0 then []
+                                  else match first_claimable (r_ch (snd ir)) r with
+                                       | Some id => [(fst ir, id)]
+                                       | None => []
+                                       end
+                      | _ => []
+                      end) (iroles (c_roles c)).
+
+Definition blank_role : role := mkRole RNone false 0 false 0.
+Definition without_claimed (cl : list (N * tid)) (c : cspec) : cspec :=
+  mkSpec (c_dets c) 5
+         (map (fun ir => if memN (fst ir) (map fst cl) then blank_role else snd ir) (iroles (c_roles c)))
+         (c_refuse c) false.
+
+Definition finish (e : N) (c : cspec) (s : st) : st * out :=
+  match assocN e (s_snaps s) with
+  | None => finish0 e c s
+  | Some snapdets =>
+      let cl := claims c (s_roster s) in
+      if negb (c_reuse c) || negb (N.eqb (c_fail c) 0 || N.eqb (c_fail c) 5) ||
+         existsb (fun d => memN d snapdets) (c_dets c) ||
+         match cl with [] => true | _ => false end
+      then finish0 e c s
+      else
+        let '(s2, u2) := finish0 e (without_claimed cl c) s in
+        let '(r3, k3) := kill_tasks (map snd cl) (s_roster s2) in
+        (with_roster s2 r3,
+         mkOut (o_rc u2) (o_kills u2 ++ k3) (o_cmds u2) (o_calls u2) (o_trigs u2) (o_pend u2) (o_launch u2))
   end.
 
 Definition out_seq (a b : out) : out :=
@@ -385,7 +428,12 @@ Definition dtc (force keep : bool) (x : env) (s : st) : st * out :=
                     | [] => cleanup (s_roster (td_st t))          (* doCleanupTasks with no ids *)
                     | ids => kill_tasks ids (s_roster (td_st t))
                     end in
-    (with_roster (td_st t) r', mkOut 0 k [] (td_calls t) (td_trigs t) left []).
+    (* a KILL call that the master refused makes the request report an error - the environment is gone *)
+    let err := match bound_tids x with
+               | [] => cleanup_err (s_roster (td_st t))
+               | ids => kill_tasks_err ids (s_roster (td_st t))
+               end in
+    (with_roster (td_st t) r', mkOut (if err then 1 else 0) k [] (td_calls t) (td_trigs t) left []).
 
 (* after the optional STOP_ACTIVITY: [go_on] = it did not fail *)
 Definition destroy_tail (e : N) (x : env) (keep : bool) (s1 : st) (o1 : out) (go_on tf : bool) : st * out :=
@@ -441,6 +489,7 @@ Inductive op :=
 | OKill (ids : list tid)
 | ODies (t : tid)
 | OFail (ids : list tid)    (* the executor (or the agent) running exactly these tasks failed *)
+| ORefuse (ids : list tid)  (* from now on the master refuses the KILL calls for these tasks *)
 | ORecon.                   (* the master answers a reconciliation: TASK_RUNNING, agent id, no executor id, for every running task *)
 
 Definition step (s : st) (o : op) : st * out :=
@@ -453,10 +502,13 @@ Definition step (s : st) (o : op) : st * out :=
            let '(s2, o2) := finish e c s1 in (s2, out_seq o1 o2)
   | OControl e ev fail => control e ev fail s
   | ODestroy e force allow keep tfail => destroy e force allow keep tfail s
-  | OCleanup => let '(r', k) := cleanup (s_roster s) in (with_roster s r', mkOut 0 k [] [] [] 0 [])
-  | OKill ids => let '(r', k) := kill_tasks ids (s_roster s) in (with_roster s r', mkOut 0 k [] [] [] 0 [])
+  | OCleanup => let '(r', k) := cleanup (s_roster s) in
+                (with_roster s r', mkOut (if cleanup_err (s_roster s) then 1 else 0) k [] [] [] 0 [])
+  | OKill ids => let '(r', k) := kill_tasks ids (s_roster s) in
+                 (with_roster s r', mkOut (if kill_tasks_err ids (s_roster s) then 1 else 0) k [] [] [] 0 [])
   | ODies t => (with_roster s (task_dies t (s_roster s)), out_rc 0)
   | OFail ids => (with_roster s (fail_tasks ids (s_roster s)), out_rc 0)
+  | ORefuse ids => (with_roster s (refuse_tasks ids (s_roster s)), out_rc 0)
   | ORecon => (with_roster s (recon_tasks (s_roster s)), out_rc 0)
   end.
 
@@ -499,7 +551,8 @@ Fixpoint ins_eo (x : envobs) (l : list envobs) : list envobs :=
 (* the state field of a task that is not ACTIVE is not compared: the core writes it from one goroutine
    per update, so a late CONFIGURE reply can overwrite the ERROR of a task that died meanwhile *)
 Definition norm_task (t : task) : task :=
-  if t_active t then t else mkTask (t_id t) (t_owner t) false 9 (t_idok t).
+  if t_active t then mkTask (t_id t) (t_owner t) true (t_state t) (t_idok t) 0 (t_ch t)
+  else mkTask (t_id t) (t_owner t) false 9 (t_idok t) 0 (t_ch t).
 
 Definition observe (s : st) (o : out) : obs :=
   mkObs (o_rc o)
